@@ -54,6 +54,12 @@ def check(repo: Repo, R) -> None:
                                                 "a parameter explicitly set to a falsy value (0, 0.0, False, '') is dropped: the device is netlisted with the model's default"))
     # "the same leaf devices": an ideal element is written as the VLSIR primitive that is that element
     R.run(_c13.ideal_primitives, repo, R, "C01.17-devices-and-parameters-kept")
+    # "every port reaches the net it was connected to": the bits a slice connection names are the bits it was written with
+    from . import c03 as _c03, c10 as _c10
+    R.run(_c03.slice_inner, repo, shared.Retag(R, lambda r, k: "C01.8-slice-resolution-order" if r.startswith("C03.2") else None,
+                                              "the resolved bottom / top of a down-counting strided slice is off: the lowest bit of the connection lands on a neighbouring net, widths and counts unchanged"), "C03")
+    R.run(_c10.anonymous_members_by_key, repo, shared.Retag(R, lambda r, k: "C01.14-ref-resolution" if k.endswith("reference-followed-to-the-end") else None,
+                                                           "an anonymous-bundle member given as a port reference that resolves to a bundle member is followed one step only: the valid design is refused (`Invalid AnonBundle attribute BundleRef`)"))
     R.run(total_loops, repo, R, noret)
     R.run(copy_port_internal, repo, R)
     R.run(copy_aliasing, repo, R, "C01.12-copy-shares-backrefs")
